@@ -1092,11 +1092,25 @@ void rfbNewFramebuffer(rfbScreenInfoPtr screen, char *framebuffer,
   rfbClientIteratorPtr iterator;
   rfbClientPtr cl;
   int old_width = screen->width, old_height = screen->height;
+  rfbClientPtr *lockedClients = NULL;
+  int nLockedClients = 0, maxLockedClients = 0, k;
 
-  /* Lock out client reads. */
+  /* Lock out client reads.  Clients may come and go while we are at it: remember exactly
+     which clients were locked and keep a reference on each, so that the very same set
+     is updated and unlocked below. */
   iterator = rfbGetClientIterator(screen);
   while ((cl = rfbClientIteratorNext(iterator))) {
+      if (nLockedClients == maxLockedClients) {
+          rfbClientPtr *grown = (rfbClientPtr *)realloc(lockedClients,
+                                    (maxLockedClients + 16) * sizeof(rfbClientPtr));
+          if (!grown)
+              break;
+          lockedClients = grown;
+          maxLockedClients += 16;
+      }
+      rfbIncrClientRef(cl);
       LOCK(cl->sendMutex);
+      lockedClients[nLockedClients++] = cl;
   }
   rfbReleaseClientIterator(iterator);
 
@@ -1134,9 +1148,9 @@ void rfbNewFramebuffer(rfbScreenInfoPtr screen, char *framebuffer,
   if (screen->cursorY >= height)
     screen->cursorY = height - 1;
 
-  /* For each client: */
-  iterator = rfbGetClientIterator(screen);
-  while ((cl = rfbClientIteratorNext(iterator)) != NULL) {
+  /* For each client locked above: */
+  for (k = 0; k < nLockedClients; k++) {
+    cl = lockedClients[k];
 
     /* Re-install color translation tables if necessary */
 
@@ -1161,8 +1175,9 @@ void rfbNewFramebuffer(rfbScreenInfoPtr screen, char *framebuffer,
 
     /* Swapping frame buffers finished, re-enable client reads. */
     UNLOCK(cl->sendMutex);
+    rfbDecrClientRef(cl);
   }
-  rfbReleaseClientIterator(iterator);
+  free(lockedClients);
 
   /* Re-enable cursor drawing into framebuffer */
   UNLOCK(screen->cursorMutex);
